@@ -71,7 +71,7 @@ def makeP (ip : Vec K → Vec K → K) (sqrt : K → K) (s : Nat) (raw : FArr (V
 def omegaFn (ip : Vec K → Vec K → K) (sqrt : K → K) (omega : K) (t s : Vec K) : K :=
   let normT := nrmA ip sqrt t                              -- scalar_type norm_t = norm(t);
   let normS := nrmA ip sqrt s                              -- scalar_type norm_s = norm(s);
-  let ts := ip t s                                         -- coef_type ts = inner_product(t, s);
+  let ts := ip s t                                         -- coef_type ts = inner_product(s, t);
   let rho := absK (ts / (normT * normS))                   -- scalar_type rho = math::norm(ts / (norm_t * norm_s));
   let om := ts / (normT * normT)                           -- coef_type om = ts / (norm_t * norm_t);
   if rho < omega then om * (omega / rho) else om           -- if (rho < prm.omega) om *= prm.omega/rho;
@@ -79,7 +79,7 @@ def omegaFn (ip : Vec K → Vec K → K) (sqrt : K → K) (omega : K) (t s : Vec
 /-- idrs.hpp:348-354 / 389-395, the smoothing block; returns the new `(t, r_s, x_s, res_norm)` -/
 def smooth (ip : Vec K → Vec K → K) (sqrt : K → K) (w : Work K) (x : Vec K) : Work K × K :=
   let t := axpbypcz 1 w.rs (-1) w.r 0 w.t                  -- axpbypcz(one, *r_s, -one, *r, zero, *t);
-  let gamma := ip t w.rs / ip t t                          -- gamma = inner_product(*t, *r_s) / inner_product(*t, *t);
+  let gamma := ip w.rs t / ip t t                          -- gamma = inner_product(*r_s, *t) / inner_product(*t, *t);
   let rs := axpby (-gamma) t 1 w.rs                        -- axpby(-gamma, *t, one, *r_s);
   let xs := axpbypcz (-gamma) w.xs gamma x 1 w.xs          -- axpbypcz(-gamma, *x_s, gamma, x, one, *x_s);
   ({ w with t := t, rs := rs, xs := xs }, nrmA ip sqrt rs) -- res_norm = norm(*r_s);
